@@ -222,6 +222,38 @@ def _volume_case(case):
     except BaseException as exc:
         out.append(("vol_revolve raises " + type(exc).__name__,
                     str(case["prof"])))
+    # a densely sampled ellipse somewhere in a channel image (semi-axes from
+    # the profile, centre away from the image origin): the volume with
+    # fix_orientation is the positive one whatever orientation and pixel
+    # size are given, it is the plain volume up to the sign and close to
+    # the volume of the ellipsoid of revolution
+    from dclab.features.volume import get_volume
+    a_, b_ = 12.0 + 2 * (case["k"] % 5), 6.0 + (case["k"] % 3)
+    t_ = np.linspace(0, 2 * np.pi, 240, endpoint=False)
+    for cx, cy in ((15.0, 11.0), (60.0, 30.0), (170.0, 40.0)):
+        el = np.stack([cx + a_ * np.cos(t_), cy + b_ * np.sin(t_)], axis=1)
+        for pix in (1.0, 0.34, 0.5):
+            exact = 4 / 3 * math.pi * a_ * b_ * b_ * pix ** 3
+            try:
+                vs = [get_volume(cc_, cx * pix, cy * pix, pix,
+                                 fix_orientation=fo)
+                      for cc_ in (el, el[::-1]) for fo in (False, True)]
+            except BaseException as exc:
+                out.append(("get_volume raises " + type(exc).__name__, ""))
+                continue
+            plain1, fix1, plain2, fix2 = vs
+            if not (near(plain1, -plain2) and near(abs(plain1), abs(fix1))):
+                out.append(("volume of a reversed contour is not the "
+                            "negative volume", "%s" % (vs,)))
+            elif not (fix1 > 0 and near(fix1, fix2)):
+                out.append(("volume with fix_orientation depends on the "
+                            "orientation given or is negative",
+                            "centre (%s, %s) pixel size %s: %s" % (
+                                cx, cy, pix, vs)))
+            elif abs(fix1 - exact) > 0.01 * exact:
+                out.append(("volume of a densely sampled ellipse is not the "
+                            "volume of the ellipsoid", "%s vs %s" % (
+                                fix1, exact)))
     return {"prof": case["prof"], "k": case["k"]}, out
 
 
